@@ -739,6 +739,30 @@ pub mod verif {
         super::handle_task_with_signals(task_future, pid, task_id, end_receiver).await
     }
 
+    /// The real `create_task_future`: spawns the program, forwards its piped stdio into the
+    /// stream, waits for it while reacting to a stop command, flushes the stream.
+    #[cfg(not(zero_worker))]
+    #[allow(clippy::too_many_arguments)]
+    pub async fn create_task_future(
+        streamer_ref: crate::worker::streamer::StreamerRef,
+        program: tako::program::ProgramDefinition,
+        task_id: TaskId,
+        instance_id: tako::InstanceId,
+        end_receiver: tokio::sync::oneshot::Receiver<tako::launcher::StopReason>,
+        stream_path: Option<std::path::PathBuf>,
+    ) -> tako::Result<tako::launcher::TaskResult> {
+        super::create_task_future(
+            streamer_ref,
+            program,
+            task_id,
+            instance_id,
+            end_receiver,
+            None,
+            stream_path,
+        )
+        .await
+    }
+
     /// The environment variables the real `insert_resources_into_env` gives to a task
     /// (HQ_RESOURCE_VALUES_*, HQ_CPUS, CUDA_VISIBLE_DEVICES, ...), so that a fake launcher can
     /// compare what a task is told with what it holds.
